@@ -1297,6 +1297,7 @@ class Group:
             self._disarm(m)
             m.join = m.sync = None
         self.members.clear()
+        self.pending_ids.clear()  # ids handed out with MEMBER_ID_REQUIRED are membership state too
         self._cancel_rebalance_timer()
         self.state = "Empty"
         self.generation += 1
